@@ -272,6 +272,16 @@ def tool_cases(ck, rnd, tier, bd, wd, trace, owner):
                         base[edge - k + len(part)] = ord("#")
                     for mode in ([], ["-m"]) if (k + jj) % 2 == 0 else ([],):
                         jobs.append((i, bytes(base), ["-s", sp.decode()] + mode, False, 0, ())); i += 1
+    # contents made of whole 32 KiB blocks of zeros at block-aligned offsets (disk images, sparse files), at the start, in the
+    # middle and at the very end, of aligned and unaligned total length: every byte, zero or not, must come back
+    Z = bytes(32768)
+    zc = [Z, Z * 4, corpus.text(rnd, 32768) + Z, corpus.rand(rnd, 32768) + Z * 2 + corpus.text(rnd, 100), Z + corpus.text(rnd, 40000),
+          corpus.text(rnd, 32768 * 2) + Z * 3, corpus.text(rnd, 30000) + Z * 2, Z * 2 + bytes(5)]
+    for zi, D in enumerate(zc):
+        for args in ([], ["--compression-format", "none"], ["-m"]):
+            if tier == "quick" and (zi + len(args)) % 2 and args:
+                continue
+            jobs.append((i, D, list(args), False, 0, ())); i += 1
     def work(j):
         i, D, args, usedict, cap, closefd0 = j
         d = os.path.join(wd, "tool%d" % i); os.makedirs(d, exist_ok=True)
